@@ -173,7 +173,7 @@ def int_division(node):
     return isinstance(node, ast.BinOp) and isinstance(node.op, ast.Div) and all(isinstance(x, ast.Constant) and isinstance(x.value, int) for x in (node.left, node.right))
 
 
-def enum(model, rep, rule='C07.ENUM', only_length=False):
+def enum(model, rep, rule='C07.ENUM', only_length=False, only_raises=False):
     """only_length: the C17 reading of the same enumeration (a fold is kept only where the printed text gets strictly shorter)."""
     import copy
     fi = model.func(FOLD)
@@ -182,7 +182,7 @@ def enum(model, rep, rule='C07.ENUM', only_length=False):
     sources = []
     quick = rep.tier != 'thorough'
     operands = [o for o in OPERANDS if o not in ('7', '10', '100000', '2.0', '3', '1e308')] if quick else OPERANDS
-    for op in (OPS if not only_length else ['<<', '*', '+']):
+    for op in (['%', '//', '<<', '>>'] if only_raises else OPS if not only_length else ['<<', '*', '+']):
         lines = ['v%d = %s %s %s' % (i, a, op, b) for i, (a, b) in enumerate((a, b) for a in operands for b in operands)]
         sources.append(('all operand pairs for %s' % op, '\n'.join(lines) + '\n'))
         if not quick or op in ('+', '<<', '*'):
@@ -195,6 +195,9 @@ def enum(model, rep, rule='C07.ENUM', only_length=False):
         if isinstance(out, tuple):
             rep.violation(rule, fi.loc(), label, 'the folding transform raises %s on literal arithmetic whose evaluation fails; such expressions must be left alone' % out[1], key=rule + '|raises|' + label.split(',')[0])
             bad.append(None)
+            continue
+        if only_raises:
+            rep.ok(rule, fi.loc(), '%s: %d expressions' % (label, len(tree.body)), 'the folding transform raises on none of them (failing evaluations are left alone)', cells=len(tree.body), key=rule + '|fold|' + label)
             continue
         body = out.attrs['body']
         if len(body) != len(tree.body):
@@ -233,7 +236,7 @@ def enum(model, rep, rule='C07.ENUM', only_length=False):
         if len(bad) == n_bad0:
             rep.ok(rule, fi.loc(), '%s: %d expressions, %d folded' % (label, len(body), n_changed - n_changed0),
                    'every folded form, printed and parsed back, evaluates to the identical type and value and is strictly shorter', cells=len(body), key=rule + '|' + label)
-    if cells and not n_changed and not bad:
+    if cells and not n_changed and not bad and not only_raises:
         raise AnalysisError('FoldConstants folded none of the %d probe expressions: the enumeration does not reach the transform' % cells)
     seen = set()
     for (label, text, new, want, got) in [b for b in bad if b is not None]:
@@ -244,4 +247,5 @@ def enum(model, rep, rule='C07.ENUM', only_length=False):
         if len(seen) > 6:
             break
         rep.violation(rule, fi.loc(), '%s  ->  %s   (%s)' % (text, new, label), 'the original %s; %s' % (want, got), key=rule + '|%s|%s' % (text, new))
-    rep.floor(rule, 10 if not only_length else 4)
+    if not only_raises:
+        rep.floor(rule, 10 if not only_length else 4)
